@@ -23,6 +23,10 @@ MANIFEST = {
     "text": "Two tied models. (1) Kernel model (supervision: ReportAbnormal, suspension at delivery time, escalation, victim and supervisor "
             "strategies, Restart/Stop/Resume/Escalate as IMMEDIATE scripted directives) replayed in lockstep against the real actor system "
             "with failures injected by scripted panics and ReportAbnormal in user-message, OnLaunch and lifecycle handlers. A Resume decision is a QUEUED request (SResumeReq) that the victim applies itself and only while alive (fix 925aa8b). "
+            "Directive effects (Kernel/Directive.v): the step in which a supervisor runs an accident record decides what the configuration says (victim strategy, else the supervisor's "
+            "directive list at the victim's accident count, else escalation), shows it first, and queues exactly the message carrying that directive at the victim's registered object "
+            "(the same record at the supervisor's parent for Escalate; a crash beyond the root) — C04_decided_directive_takes_effect; Resume keeps instance number and queues "
+            "(C04_resume_continues_same_instance_and_queue); a terminate request makes its receiver terminating (C04_stop_request_makes_receiver_terminating). "
             "Proved: a suspended "
             "mailbox never hands a user message to the actor, a suspension (with no resume request pending for the address) is lifted only by the directive (Resume, completed restart, "
             "termination), registry well-formedness; the trace-level statement 'no user message between failure and decision' is checked "
